@@ -27,7 +27,16 @@ fn cut_model(vals: &[X], edges: &[f64], n_labels: usize, right: bool, add_bounds
             .map(|v| match v {
                 None => Ok(None),
                 Some(v) => {
-                    let hits: Vec<usize> = (0..e.len().saturating_sub(1)).filter(|j| if right { e[*j] < *v && *v <= e[j + 1] } else { e[*j] <= *v && *v < e[j + 1] }).collect();
+                    // with open outer bounds the first bin has no lower side and the last no upper side (so that
+                    // infinite values are labelled too: "every non-null value receives a label")
+                    let nb = e.len().saturating_sub(1);
+                    let hits: Vec<usize> = (0..nb)
+                        .filter(|j| {
+                            let lower = (add_bounds && *j == 0) || if right { e[*j] < *v } else { e[*j] <= *v };
+                            let upper = (add_bounds && *j + 1 == nb) || if right { *v <= e[j + 1] } else { *v < e[j + 1] };
+                            lower && upper
+                        })
+                        .collect();
                     match hits.as_slice() {
                         [j] => Ok(Some(100.0 + *j as f64)),
                         _ => Err(()),
@@ -233,7 +242,11 @@ fn check_large(thorough: bool, ctx: &mut Ctx) {
     for e in sizes {
         let edges: Vec<f64> = (0..e).map(|i| i as f64).collect();
         for ty in ["f64", "Option<i32>"] {
-            let mut vals: Vec<X> = vec![None, Some(-1.0), Some(e as f64), Some(e as f64 + 3.0)];
+            let (mn, mx) = if ty == "f64" { (f64::MIN, f64::MAX) } else { (i32::MIN as f64, i32::MAX as f64) };
+            let mut vals: Vec<X> = vec![None, Some(-1.0), Some(e as f64), Some(e as f64 + 3.0), Some(mn), Some(mx)];
+            if ty == "f64" {
+                vals.extend([Some(f64::NEG_INFINITY), Some(f64::INFINITY)]);
+            }
             for k in 0..e {
                 vals.push(Some(k as f64));
                 if ty == "f64" {
